@@ -679,7 +679,21 @@ func (it *Interp) setupIntrinsics() {
 			return it.f64(math.Exp(x.F))
 		}
 		if it.mode != Math {
-			it.outside("math.Exp of a symbolic argument in bits mode")
+			// bits mode: exp is outside the solvers. Contract stub (part of the claim): the result is some float64
+			// that is not NaN and not negative, bracketed by a table of values of the monotone function with a
+			// relative slack of 1e-9 - enough to tell "saturated" arguments from ordinary ones, so that
+			// counterexamples replay against the real math.Exp.
+			tb := it.tb
+			s64 := Sort{SFP, 64}
+			return tb.SideVar(fmt.Sprintf("$fexp%d", x.ID), s64, func(v *Term) *Term {
+				c := tb.AndN(tb.Not(tb.FUn("isnan", v)), tb.Cmp(token.GEQ, v, tb.FPC(64, 0), true))
+				for _, t := range []float64{-745.2, -700, -100, -40, -38, -37, -36.8, -36, -30, -20, -10, -5, -2, -1, 0, 1, 2, 5, 10, 20, 40, 100, 700, 709.7} {
+					e := math.Exp(t)
+					c = tb.And(c, tb.Implies(tb.Cmp(token.LEQ, x, tb.FPC(64, t), true), tb.Cmp(token.LEQ, v, tb.FPC(64, e*(1+1e-9)), true)))
+					c = tb.And(c, tb.Implies(tb.Cmp(token.GEQ, x, tb.FPC(64, t), true), tb.Cmp(token.GEQ, v, tb.FPC(64, e*(1-1e-9)), true)))
+				}
+				return c
+			})
 		}
 		tb := it.tb
 		v := tb.SideVar(fmt.Sprintf("$exp%d", x.ID), RealSort, func(v *Term) *Term {
